@@ -12,7 +12,7 @@
 From Coq Require Import List NArith ZArith Bool.
 Import ListNotations.
 From LV Require Import Model.Base Model.Template Model.Eval Model.Derived Model.EvalRun Model.Spec
-  Proofs.BaseProofs Proofs.EvalProofs Proofs.FrameProofs Proofs.TemplateFrame Proofs.C08Overlay Proofs.C08Eval.
+  Proofs.BaseProofs Proofs.EvalProofs Proofs.FrameProofs Proofs.TemplateFrame Proofs.C08Overlay Proofs.C08Eval Proofs.C08Idem.
 
 (** ** (i) What "o overlaid by P" is: [mix o P], characterised by what a dotted-key lookup finds in
     it.  One step along the key: an index segment never addresses a dictionary; where P has
@@ -130,7 +130,19 @@ Section Wrappers.
   Theorem C08_nesting_composes_validate : forall ws e o s,
     validate (wrap_all ws e) o s = validate e (overlay_all ws o) s.
   Proof. exact (validate_wrap_all S mem_find mem_store cfg ucall rfuel site_ok). Qed.
+
+  (** re-wrapping in the forced options a graph is already wrapped in changes nothing: same result,
+      same store effects, same events, from every state; likewise for validate *)
+  Theorem C08_forced_twice_is_once : forall p e o s,
+    wf_dict p = true -> eval (EWith true p (EWith true p e)) o s = eval (EWith true p e) o s.
+  Proof. exact (eval_forced_twice S mem_find mem_store cfg ucall rfuel site_ok). Qed.
+
+  Theorem C08_forced_twice_is_once_validate : forall p e o s,
+    wf_dict p = true -> validate (EWith true p (EWith true p e)) o s = validate (EWith true p e) o s.
+  Proof. exact (validate_forced_twice S mem_find mem_store cfg ucall rfuel site_ok). Qed.
 End Wrappers.
+Print Assumptions C08_forced_twice_is_once.
+Print Assumptions C08_forced_twice_is_once_validate.
 Print Assumptions C08_with_forced.
 Print Assumptions C08_with_default.
 Print Assumptions C08_validate_with.
@@ -157,6 +169,12 @@ Theorem C08_overlay_well_formed : forall o p,
   wf_dict o = true -> wf_dict p = true -> wf_dict (mix o p) = true.
 Proof. exact wf_mix. Qed.
 Print Assumptions C08_overlay_well_formed.
+
+(** overlaying the same pre-set dictionary twice is overlaying it once — the very same dictionary,
+    entry for entry and in the same order, whatever the caller supplies and however deep P nests *)
+Theorem C08_preset_twice_is_once : forall o p, wf_dict p = true -> mix (mix o p) p = mix o p.
+Proof. exact mix_idem. Qed.
+Print Assumptions C08_preset_twice_is_once.
 
 (** a member of a section both sides have is looked up in the merge of the two sections *)
 Theorem C08_section_member : forall k k2 a b sa sb,
@@ -438,6 +456,14 @@ Example C08_mix_not_associative :
   mix (mix a b) c <> mix a (mix b c).
 Proof. vm_compute. discriminate. Qed.
 Print Assumptions C08_mix_not_associative.
+
+(** non-vacuity of [C08_preset_twice_is_once]: a nested pre-set that does change the caller's dictionary *)
+Example C08_ex_preset_twice :
+  let o := [(SName 20, JObj [(SName 22, JInt 2); (SName 21, JInt 7)]); (SName 10, JInt 3)]%N in
+  let p := [(SName 20, JObj [(SName 21, JInt 1); (SName 23, JObj [(SName 24, JNull)])]); (SName 11, JInt 4)]%N in
+  wf_dict p = true /\ mix o p <> o /\ mix (mix o p) p = mix o p.
+Proof. exact mix_idem_example. Qed.
+Print Assumptions C08_ex_preset_twice.
 
 (** ** Non-vacuity at evaluation level (by computation on the reference instance and on the real
     store).  User code: f(args) returns the tagged tuple (f, args). *)
